@@ -6,6 +6,7 @@ of a pending job until that job itself is finalized" and "do not collapse jobs i
 no provenance").  All theorems: every program, every schedule.
 -/
 import RedunModel.Lemmas.SchedCse
+import RedunModel.Lemmas.SchedTwin
 import RedunModel.Lemmas.ExprMemo
 namespace RedunModel.C06
 open RedunModel.SchedCore
@@ -89,5 +90,107 @@ example : (ExprMemo.run {} [.eval 1 7, .eval 1 7, .eval 2 7, .eval 1 8, .finaliz
     (fun a => (a.out.id, a.out.started)) = [(0, true), (0, false), (1, true), (2, true), (0, false)] := by decide
 example : ExprMemo.Live [.eval 1 7, .eval 1 7, .eval 2 7, .eval 1 8, .finalize 2, .eval 1 7] := by
   simp [ExprMemo.Live]
+
+
+/-! ## every duplicate receives the result or error of its twin (second clause of C06)
+
+The model carries no values: "same result or error" is expressed as "settles on the same branch"
+(resolved / rejected) — through the twin list while the representative is still running, through the
+same-execution table once it has finished.  All theorems: every program (real and dry runs), every schedule. -/
+
+/-- A settled promise keeps its branch: no later step changes the status of a job that is resolved or
+rejected (a settled job has no token left — no queued event, no place in the waiting list, not in flight). -/
+theorem settle_once (p : Prog) (s s' : S) (h : Reachable p s) (hs : Step p s s') (j : JobId)
+    (hst : (s.jobs j).status ≠ Status.pending) : (s'.jobs j).status = (s.jobs j).status :=
+  settled_stable p s s' h hs j hst
+
+/-- …because of event uniqueness: every job has at most one token (queued event, waiting-list entry or being
+in flight), and a settled job has none. -/
+theorem one_token (p : Prog) (s : S) (h : Reachable p s) (j : JobId) :
+    tot s j ≤ 1 ∧ ((s.jobs j).status ≠ Status.pending → tot s j = 0) :=
+  ⟨((reachable_tok p s h).tok j).1, ((reachable_tok p s h).tok j).2.1⟩
+
+/-- `Promise.all` is exact in real runs: while the evaluation of a job has not failed, `waiting` is the number
+of its children whose promise is still pending. -/
+theorem promise_all_exact (p : Prog) (hd : p.dryrun = false) (s : S) (h : Reachable p s) (j : JobId)
+    (he : (s.jobs j).evalFailed = false) : (s.jobs j).waiting = cntPend s j :=
+  Nat.le_antisymm ((reachable_live p hd s h).cnt j he) ((reachable_tok p s h).lb j (by simp) he)
+
+/-- A duplicate collapsed onto a still-running twin: once it has settled, it has settled exactly like the
+job it was collapsed onto (same branch: both resolved or both rejected). -/
+theorem twin_same_outcome (p : Prog) (s : S) (h : Reachable p s) (X t : JobId) (hm : t ∈ (s.jobs X).twins)
+    (hst : (s.jobs t).status ≠ Status.pending) : (s.jobs t).status = (s.jobs X).status :=
+  twin_outcome p s h X t hm hst
+
+/-- …and while the representative is pending the duplicate only waits (pending, no token); it belongs to
+exactly one representative, which is itself not collapsed, and it never has children of its own. -/
+theorem twin_waits (p : Prog) (s : S) (h : Reachable p s) (X t : JobId) (hm : t ∈ (s.jobs X).twins) :
+    ((s.jobs X).status = Status.pending → (s.jobs t).status = Status.pending ∧ tot s t = 0) ∧
+    (∀ Y, t ∈ (s.jobs Y).twins → Y = X) ∧ (∀ Y, X ∉ (s.jobs Y).twins) ∧
+    (∀ c, c < s.next → (s.jobs c).parent ≠ some t) := by
+  obtain ⟨a, _, _, _, _, f, g, i, _⟩ := (reachable_tok p s h).tw X t hm
+  exact ⟨a, i, fun Y hY => g ⟨Y, hY⟩, f⟩
+
+/-- The step that settles the representative settles or serves every twin: if `X` is rejected by the step
+so is `t` (in-line, `rejectTwin`); if `X` is resolved by the step the twin's `done t true` event
+(result replayed, no re-execution) is queued. -/
+theorem twin_settles_with_rep (p : Prog) (s s' : S) (h : Reachable p s) (hs : Step p s s') (X t : JobId)
+    (hm : t ∈ (s.jobs X).twins) (hpX : (s.jobs X).status = Status.pending) :
+    ((s'.jobs X).status = Status.rejected → (s'.jobs t).status = Status.rejected) ∧
+    ((s'.jobs X).status = Status.resolved → Ev.done t true ∈ s'.queue) :=
+  twin_step p s s' h hs X t hm hpX
+
+/-- A recorded same-execution entry is the outcome of a provenance-recording job with that key and context,
+and that job is settled on the recorded branch. -/
+theorem cse_entry_witness (p : Prog) (s : S) (h : Reachable p s) (e : CseEntry) (he : e ∈ s.cse) :
+    ∃ j, j < s.next ∧ (spec p s j).key = e.key ∧ (spec p s j).ctx = e.ctx ∧ (spec p s j).prov = true ∧
+      (s.jobs j).status = (if e.isErr then Status.rejected else Status.resolved) :=
+  reachable_cseW p s h e he
+
+/-- A duplicate arriving after its twin finished: whenever the cache lookup of `_exec_job_main_thread`
+answers from the same-execution table (`Hit.cse b`; the job is then sent to `reject` if `b`, to `done … true`
+otherwise), some job with the same eval hash (and the same context, unless the looking job has none) has
+already settled on exactly that branch. -/
+theorem late_duplicate_same_branch (p : Prog) (s : S) (h : Reachable p s) (sp : Spec) (b : Bool)
+    (hh : cacheLookup s sp = Hit.cse b) :
+    ∃ j, j < s.next ∧ (spec p s j).key = sp.key ∧ (sp.ctx = 0 ∨ (spec p s j).ctx = sp.ctx) ∧
+      (spec p s j).prov = true ∧ (s.jobs j).status = (if b then Status.rejected else Status.resolved) :=
+  cse_hit_witness p s h sp b hh
+
+/-! non-vacuity: jobs 1 and 2 are the same call (2 collapses onto the running 1), job 4 is the same call
+arriving after 1 has finished (served from the same-execution table, never submitted) -/
+def twinProg (fails : Bool) : Prog :=
+  { specs := [ { key := 0, ctx := 0, limits := [], scope := .backend, cseOk := true, prov := true, execOk := true,
+                 fails := false, pre := .miss, children := [1, 2, 3] },
+               { key := 7, ctx := 0, limits := [], scope := .backend, cseOk := true, prov := true, execOk := true,
+                 fails := fails, pre := .miss, children := [] },
+               { key := 7, ctx := 0, limits := [], scope := .backend, cseOk := true, prov := true, execOk := true,
+                 fails := fails, pre := .miss, children := [] },
+               { key := 8, ctx := 0, limits := [], scope := .backend, cseOk := true, prov := true, execOk := true,
+                 fails := false, pre := .miss, children := [4] },
+               { key := 7, ctx := 0, limits := [], scope := .backend, cseOk := true, prov := true, execOk := true,
+                 fails := fails, pre := .miss, children := [] } ],
+    limit := fun _ => 1, dryrun := false }
+
+def twinSchedule : List Choice :=
+  [.pop, .complete 0, .pop, .pop, .pop, .pop,          -- root done; 1 submitted; 2 collapses onto 1; 3 submitted
+   .complete 1, .pop, .pop, .pop, .pop,                 -- 1 reports and settles; its twin 2 settles with it
+   .complete 3, .pop, .pop, .pop, .pop]                 -- 3 spawns 4 = the same call again: served from the table
+
+/-- the twin is resolved with its representative; the late duplicate is resolved from the table; one submission -/
+example : 2 ∈ ((run (twinProg false) twinSchedule).jobs 1).twins ∧
+    ((run (twinProg false) twinSchedule).jobs 1).status = Status.resolved ∧
+    ((run (twinProg false) twinSchedule).jobs 2).status = Status.resolved ∧
+    ((run (twinProg false) twinSchedule).jobs 4).status = Status.resolved ∧
+    (run (twinProg false) twinSchedule).submits = [0, 1, 3] := by decide
+/-- the twin is rejected with its representative (and the recorded entry is an error entry) -/
+example : 2 ∈ ((run (twinProg true) twinSchedule).jobs 1).twins ∧
+    ((run (twinProg true) twinSchedule).jobs 1).status = Status.rejected ∧
+    ((run (twinProg true) twinSchedule).jobs 2).status = Status.rejected ∧
+    { key := 7, ctx := 0, isErr := true } ∈ (run (twinProg true) twinSchedule).cse := by decide
+example : ((run (twinProg false) twinSchedule).jobs 2).status = ((run (twinProg false) twinSchedule).jobs 1).status :=
+  twin_same_outcome _ _ (reachable_run _ _) 1 2 (by decide) (by decide)
+example : ((run (twinProg true) twinSchedule).jobs 2).status = ((run (twinProg true) twinSchedule).jobs 1).status :=
+  twin_same_outcome _ _ (reachable_run _ _) 1 2 (by decide) (by decide)
 
 end RedunModel.C06
